@@ -149,6 +149,7 @@ class Linear(keras.layers.Layer):
     """
     super(Linear, self).__init__(**kwargs)
 
+    utils.verify_units(units)
     self.num_input_dims = num_input_dims
     self.units = units
 
